@@ -28,8 +28,11 @@ enum Fault {
     ResetBeforeAccept,
     /// send, then half-close at once: the FIN is already there when the server first runs
     HalfCloseImmediate,
+    /// prefix sent, then silence - and *while* the client is silent (no time has passed yet) another
+    /// client connects: the server keeps serving means now, not after the idle timeout
+    SilenceMeanwhile,
 }
-const FAULTS: [Fault; 8] = [
+const FAULTS: [Fault; 9] = [
     Fault::Close,
     Fault::HalfClose,
     Fault::ResetSettled,
@@ -38,6 +41,7 @@ const FAULTS: [Fault; 8] = [
     Fault::Silence,
     Fault::ResetBeforeAccept,
     Fault::HalfCloseImmediate,
+    Fault::SilenceMeanwhile,
 ];
 
 fn streams() -> Vec<(String, Vec<Req>)> {
@@ -181,6 +185,22 @@ fn run_case(sname: &str, reqs: &[Req], refs: &(Vec<Content>, Vec<usize>), offset
             let _ = c.step(&w, &b);
             expected_js = vec![victim];
         }
+        Fault::SilenceMeanwhile => {
+            let _ = c.step(&w, &bytes[..offset]);
+            let mut third = w.connect()?;
+            let io = third.step(&w, &Req::bare(op::NOOP).opaque(0xf6).bytes());
+            if io.is_err() || wire::split_responses(&third.got).0.len() != 1 {
+                return Ok(Res {
+                    viol: Some((
+                        "server|not-serving-meanwhile".into(),
+                        format!("{}: while that client is silent (no time has passed) another client connected, sent a noop and was not answered", name),
+                    )),
+                    steps: 3,
+                });
+            }
+            third.close(&w);
+            c.pump();
+        }
         Fault::Silence => {
             let _ = c.step(&w, &bytes[..offset]);
             w.advance(30);
@@ -197,7 +217,7 @@ fn run_case(sname: &str, reqs: &[Req], refs: &(Vec<Content>, Vec<usize>), offset
     // what the faulty client received (when it could still read)
     let (resps, residue) = wire::split_responses(&c.got);
     let mut problem: Option<(String, String)> = None;
-    if matches!(fault, Fault::HalfClose | Fault::HalfCloseImmediate | Fault::Silence | Fault::CorruptMagic) {
+    if matches!(fault, Fault::HalfClose | Fault::HalfCloseImmediate | Fault::Silence | Fault::SilenceMeanwhile | Fault::CorruptMagic) {
         let j = expected_js[0];
         if residue != 0 {
             problem = Some(("responses|residue".into(), format!("{} stray bytes in the response stream", residue)));
